@@ -5,6 +5,7 @@
    in Proof/SigAlg.v. Scalars: sg_scalars (commutative ring without zero divisors, 1 <> 0,
    boolean equality). *)
 From ZC Require Import Model.SigAlg Proof.SigAlg.
+From Coq Require Import Sorting.Permutation.
 
 (* all individually valid => the aggregate check accepts, for every batch size and batch split *)
 Theorem C32_agg_complete : forall F f0 f1 fadd fmul fsub fopp feqb,
@@ -22,6 +23,17 @@ Theorem C32_batch_size_irrelevant : forall F f0 f1 fadd fmul fsub fopp feqb,
     ag_run F f0 f1 fadd fmul feqb n bs items = ag_run F f0 f1 fadd fmul feqb n bs' items.
 Proof. exact sgb_agg_batch_size_irrelevant. Qed.
 Print Assumptions C32_batch_size_irrelevant.
+
+(* the aggregate is a fold over the multiset of entries: the verdict is invariant under any
+   permutation of the Aggregate calls (and any batch size). The engine calls the real Aggregate in
+   descending / random / concurrent order and compares with this order-free model. *)
+Theorem C32_aggregation_order_irrelevant : forall F f0 f1 fadd fmul fsub fopp feqb,
+  sg_scalars F f0 f1 fadd fmul fsub fopp feqb ->
+  forall n bs bs' items items', (0 < bs)%nat -> (0 < bs')%nat -> items <> [] ->
+    Permutation items items' ->
+    ag_run F f0 f1 fadd fmul feqb n bs items = ag_run F f0 f1 fadd fmul feqb n bs' items'.
+Proof. exact sgb_agg_order_irrelevant. Qed.
+Print Assumptions C32_aggregation_order_irrelevant.
 
 (* the full statement: accepted => every individual signature is valid *)
 Definition C32_agg_sound (F : Type) (f0 f1 : F) (fadd fmul fsub : F -> F -> F) (fopp : F -> F)
